@@ -274,8 +274,7 @@ func (wtr *JSONWtr) writeValue(p *node.Path, v val.Value) error {
 		case val.FmtIdentityRef:
 			idtyStr := item.String()
 			leafMod := meta.OriginalModule(p.Meta)
-			bases := p.Meta.(meta.HasType).Type().Base()
-			idty := meta.FindIdentity(bases, idtyStr)
+			idty := findIdentity(p.Meta.(meta.HasType).Type(), idtyStr, 0)
 			if idty == nil {
 				return fmt.Errorf("could not find ident '%s'", idtyStr)
 			}
@@ -354,4 +353,26 @@ func (wtr *JSONWtr) writeString(s string) error {
 	writeString(clean, s, true)
 	_, ioErr := wtr._out.Write(clean.Bytes())
 	return ioErr
+}
+
+// findIdentity looks the identity up in the bases of the type, of the type a
+// leafref points at, and of the members of a union
+func findIdentity(t *meta.Type, ident string, depth int) *meta.Identity {
+	if depth > 8 {
+		return nil
+	}
+	if found := meta.FindIdentity(t.Base(), ident); found != nil {
+		return found
+	}
+	if t.Format().Single() == val.FmtLeafRef {
+		if target := t.Resolve(); target != t {
+			return findIdentity(target, ident, depth+1)
+		}
+	}
+	for _, member := range t.Union() {
+		if found := findIdentity(member, ident, depth+1); found != nil {
+			return found
+		}
+	}
+	return nil
 }
